@@ -8,6 +8,7 @@ mutated response.  Oracle: no service call raises; the healthy connection gets e
 its responses; a corrupted connection ends in {request served, still waiting, closed}.
 """
 import hashlib
+import ssl
 
 from simkit.core import Outcome, Trace, Streams
 from simkit.driver import Check
@@ -20,11 +21,26 @@ from checks.c31 import gen_shape, C31
 _judge = C31._judge
 
 
+class HarnessProblem(Exception):
+    """The harness itself failed (never a verdict about ioflo)."""
+
+
 def mutate(g, raw, side):
     """Returns (kind, mutated bytes)."""
     lines = raw.split(b"\r\n")
     kind = g.choice(["startline", "startline", "header-nocolon", "chunk-size", "chunk-term", "length", "random", "truncate", "flip", "longline",
-                     "header-garbage", "dup-crlf"])
+                     "header-garbage", "dup-crlf"] + (["continue", "redirect-noloc", "redirect-badloc", "sse-badutf8"] if side == "response" else []))
+    if kind == "continue":       # interim response(s) before the real one, complete or not
+        return kind, b"HTTP/1.1 100 Continue\r\n" + g.choice([b"", b"X-Note: wait\r\n"]) + b"\r\n" + g.choice([raw, b"", b"HTTP/1.1 100 Continue\r\n\r\n" + raw, raw[:g.randint(0, len(raw))]])
+    if kind == "redirect-noloc":
+        return kind, b"HTTP/1.1 %d Moved\r\nContent-Length: 0\r\n\r\n" % g.choice([300, 301, 302, 303, 307])
+    if kind == "redirect-badloc":
+        loc = g.choice([b"http://h:abc/x", b"http://[::1/x", b"http://h:99999999/", b"//h:-1/", b"http://h]/", b"", b" ", b"http://h:\xb2/", b"%zz", b"http://%5B/x"])
+        return kind, b"HTTP/1.1 %d Moved\r\nLocation: %s\r\nContent-Length: 0\r\n\r\n" % (g.choice([301, 302, 303, 307]), loc)
+    if kind == "sse-badutf8":
+        return kind, (b"HTTP/1.1 200 OK\r\nContent-Type: text/event-stream\r\nTransfer-Encoding: chunked\r\n\r\n" +
+                      b"".join(b"%x\r\n%s\r\n" % (len(c), c) for c in [g.choice([b"data: \xff\xfe\n\n", b"\xef\xbb\xbfdata: ok\n\n", b"\xff\xfe\xfddata: x\n\n", b"id: \xc3\n\n",
+                                                                                         b"event: \xe2\x82\ndata: y\n\n", b"data: caf\xc3", b"\xa9\n\n"]) for _ in range(g.randint(1, 3))]))
     if kind == "startline":
         if side == "request":
             lines[0] = g.choice([b"GET", b"GET /", b"FOO / HTTP/1.1", b"GET / FTP/1.1", b"", b"\x00\xff\xfe garbage", b"GET  /  HTTP/1.1  extra words",
@@ -117,7 +133,8 @@ class C32(Check):
             raw = gen_response(g, nospace_ok=False)["raw"]
             kind, bad = mutate(f, raw, "response")
             cuts = sorted(s.randint(1, max(1, len(bad))) for _ in range(s.randint(0, 4)))
-            return {"side": "client", "shapes": [], "bad": [{"kind": kind, "raw": bad, "cuts": cuts, "close": s.random() < 0.5}], "schedule": [], "bs": g.choice([3, 64, 4096])}
+            return {"side": "client", "shapes": [], "bad": [{"kind": kind, "raw": bad, "cuts": cuts, "close": s.random() < 0.5}], "schedule": [], "bs": g.choice([3, 64, 4096]),
+                    "redirectable": g.random() < 0.6}
         shapes = [gen_shape(g, i) for i in range(g.randint(1, 3))]
         bads = []
         for k in range(g.randint(1, 3)):
@@ -246,7 +263,7 @@ class C32(Check):
             lst = SimSocket(net, "peer")
             lst.bind(("0.0.0.0", HPORT))
             lst.listen(5)
-            pat = clienting.Patron(store=Store(stamp=0.0), hostname="127.0.0.1", port=HPORT, bufsize=plan["bs"], redirectable=False)
+            pat = clienting.Patron(store=Store(stamp=0.0), hostname="127.0.0.1", port=HPORT, bufsize=plan["bs"], redirectable=bool(plan.get("redirectable", False)))
             pat.open()
             srv = None
             try:
@@ -259,7 +276,7 @@ class C32(Check):
                         except OSError:
                             pass
                 if srv is None or not pat.connector.connected:
-                    raise RuntimeError("harness: patron did not connect")
+                    raise HarnessProblem("harness: patron did not connect")
                 pat.request(method="GET", path="/x")
                 pat.serviceAll()
                 net.deliver_all()
@@ -274,8 +291,13 @@ class C32(Check):
                 for k in range(5):
                     pat.serviceAll()
                     net.deliver_all()
-            except RuntimeError:
+            except HarnessProblem:
                 raise
+            except OSError as ex:
+                if isinstance(ex, ssl.SSLError):
+                    raise
+                tr.add("oserror", ex.errno)      # a transport error towards a peer that went away propagates by C25: not a parse matter
+                return
             except Exception as ex:
                 import traceback
                 out.violate("exception", "Patron.serviceAll raised %s [%s]" % (type(ex).__name__, b["kind"]), "%r\n%s" % (ex, traceback.format_exc()[-900:]))
